@@ -1,7 +1,7 @@
 """C04 — every connection is answered; no input can crash the server.
 P: no reachable unguarded panic site; S: no input-driven recursion; W: exactly one response write per path;
 E: error edges answer with the 400 constructor."""
-from ..callgraph import callee_name
+from ..callgraph import callee_name, is_transport_io
 from ..cfg import cfg_of
 from ..dataflow import du_of, place_key, val_ref_target
 from ..framework import Check
@@ -172,12 +172,12 @@ def run(ctx):
         du = du_of(fn)
         g = guards_of(fn)
         def is_write_call(t):
-            if t.get("callee") in WRITE_CALLS and not t.get("is_resolved"):
+            if t.get("callee") in WRITE_CALLS and is_transport_io(t, t.get("callee")):
                 return True
             c = callee_name(t)
             if c in F.fns and c not in R.connection_fns and c != name:
                 sub = G.reachable([c], kinds=("call", "trait-cha"))
-                return any(x in R.transport_helpers and any((tt.get("callee") or "") in WRITE_CALLS and not tt.get("is_resolved") for _, tt in F.fns[x].calls()) for x in sub if x in F.fns)
+                return any(x in R.transport_helpers and any((tt.get("callee") or "") in WRITE_CALLS and is_transport_io(tt, tt.get("callee")) for _, tt in F.fns[x].calls()) for x in sub if x in F.fns)
             return False
         wblocks = [bid for bid, t in fn.calls() if is_write_call(t)]
         res = cfg.minmax_count(wblocks)
@@ -212,7 +212,7 @@ def run(ctx):
             for e, f in fail_edges:
                 src = _root_producer(du, f[1])
                 is_reader = src in F.fns and src not in R.connection_fns and any(
-                    x in R.transport_helpers and any((tt.get("callee") or "").startswith("std::io::Read::read") and not tt.get("is_resolved") for _, tt in F.fns[x].calls())
+                    x in R.transport_helpers and any(is_transport_io(tt, "std::io::Read::read") for _, tt in F.fns[x].calls())
                     for x in G.reachable([src], kinds=("call", "trait-cha")) if x in F.fns) if src else False
                 if src and (is_reader or any(x in src for x in ("std::io::Read::read", "request::Request::parse", "application::Application::execute"))) and cfg.edge_dominates(e, wb):
                     dominated = src
